@@ -454,3 +454,6 @@ twin("C16-T1", "C16", "refresh by one sweep over covouts.values() already in pla
 twin("C17-T1", "C17", "reseed with an explicit entropy source", U, "_worker_init", "    np.random.seed()", "    np.random.seed(int.from_bytes(os.urandom(4), \"little\"))")
 twin("C20-T1", "C20", "per-item local named differently", edits=[dict(file=PL, old="output_method", new="agg_for_this_output", all=True)])
 twin("C15-T1", "C15", "run_optimization restores in finally via a helper local", PJ, "Project.run_optimization", "            self.settings.sim_end = original_end  # Note that", "            end_year_to_restore = original_end\n            self.settings.sim_end = original_end  # Note that")
+
+mutant("C01-M14", "C01", "R01g", "TimedCompartment.__setitem__ divides by rows + 1", M, "TimedCompartment.__setitem__", "(self._vals.shape[0] * np.ones((self._vals.shape[0], 1)))", "((self._vals.shape[0] + 1) * np.ones((self._vals.shape[0], 1)))")
+mutant("C01-M15", "C01", "R01g", "TimedLink total drops the first row", M, "TimedLink.__getitem__", "return self._vals[:, ti].sum(axis=0)", "return self._vals[1:, ti].sum(axis=0)")
